@@ -153,6 +153,17 @@ theorem pending_kept_by_export_and_reset (pre mid : List Op) (e : Ent)
   rw [Spec.after_append, List.mem_filter]
   exact ⟨h1, by simp [hd]⟩
 
+/-- "Each response attached to its own request": in every list handed out at any point of any
+    history, an entry's request is the `req` operation of its ID that the tag names, and its
+    response (if any) is a later `res` operation of the same ID. -/
+theorem each_response_attached_to_own_request (ops : List Op) (es : List Ent)
+    (h : Obs.log es ∈ run init 0 ops) :
+    ∀ e ∈ es, ops[e.rq]? = some (.req e.id) ∧
+      ∀ j, e.rs = some j → ops[j]? = some (.res e.id) ∧ e.rq < j := by
+  rw [heap_refines_spec] at h
+  have := own_outputs ops [] [] (by simp) es (by simpa using h)
+  simpa [Own] using this
+
 /-- At every point of every history: IDs in the log are pairwise different, entries are in
     arrival order, and every entry was recorded before "now". -/
 theorem log_well_formed (ops : List Op) : WF (logAfter ops) ops.length := WF_logAfter ops
